@@ -343,7 +343,8 @@ func c09RunSchedule(t testing.TB, rec *kit.Rec, sc c09Scenario, choose func(n in
 		return kit.Hex([]byte(min.Transport{}.GetIdentifier(&DecoyRegistration{Keys: keysOf(secret)})))
 	}
 
-	o.pubBase = len(e.redis.Pubs())
+	e.redis.Reset() // (the recorder would otherwise grow with every schedule and every check copies it)
+	o.pubBase = 0
 	// pre-existing state for the sweeper: X expired (11 min, unused), Y used (11 min, must survive)
 	if sc.Sweeper {
 		for i, name := range []string{"X", "Y"} {
